@@ -6,6 +6,7 @@ import (
 	"go/types"
 	"regexp"
 	"sort"
+	"strconv"
 	"strings"
 
 	"golang.org/x/tools/go/ast/astutil"
@@ -293,6 +294,36 @@ func (r *excResolver) resolve(s excSiteKey) string {
 		r.used[k] = true
 		return k
 	}
+	// `c[k]` with a constant k where the table has `c[m:]`, m > k, for the same container in the same
+	// function: the entry's claim len(c) >= m is the site's claim len(c) > k
+	fps := []string{s.fp}
+	if r.norm != nil && r.norm(s.fp) != s.fp {
+		fps = append(fps, r.norm(s.fp)) // the container as a field of a struct
+	}
+	for _, sfp := range fps {
+		i := strings.LastIndex(sfp, "[")
+		if i <= 0 || !strings.HasSuffix(sfp, "]") {
+			continue
+		}
+		k, err := strconv.Atoi(sfp[i+1 : len(sfp)-1])
+		if err != nil {
+			continue
+		}
+		var cands []string
+		for e := range r.entries {
+			ek, ok := parseExcKey(e)
+			if !ok || ek.fn != s.fn || !strings.HasPrefix(ek.fp, sfp[:i+1]) || !strings.HasSuffix(ek.fp, ":]") {
+				continue
+			}
+			if m, err := strconv.Atoi(ek.fp[i+1 : len(ek.fp)-2]); err == nil && m > k {
+				cands = append(cands, e)
+			}
+		}
+		sort.Strings(cands)
+		if len(cands) > 0 {
+			return cands[0] // not marked used: the entry's own site may still come
+		}
+	}
 	// the container moved into (or out of) a struct: `matches[0][0]` became `m.texts[0][0]`. With
 	// field selections replaced by the type of the field the two have the same fingerprint.
 	if r.norm != nil {
@@ -513,9 +544,9 @@ func exprFingerprint(info *types.Info, e ast.Expr) string {
 		case *ast.SelectorExpr:
 			return fp(x.X) + "." + x.Sel.Name
 		case *ast.IndexExpr:
-			return fp(x.X) + "[" + fp(x.Index) + "]"
+			return fp(hoisted(info, x.X)) + "[" + fp(x.Index) + "]"
 		case *ast.SliceExpr:
-			s := fp(x.X) + "["
+			s := fp(hoisted(info, x.X)) + "["
 			if x.Low != nil {
 				s += fp(x.Low)
 			}
@@ -543,6 +574,87 @@ func exprFingerprint(info *types.Info, e ast.Expr) string {
 		return types.ExprString(e)
 	}
 	return fp(e)
+}
+
+// hoisted: when the container of an index or slice expression is a local variable defined once, by
+// `v := a[k]` with a constant k, and never assigned again, the defining expression: `s := m[0];
+// s[0]` is the site `m[0][0]` with a name given to its first half.
+var singleDefs map[*types.Info]map[types.Object]ast.Expr
+
+func hoisted(info *types.Info, e ast.Expr) ast.Expr {
+	id, ok := e.(*ast.Ident)
+	if !ok || bndCtx == nil {
+		return e
+	}
+	if singleDefs == nil {
+		singleDefs = map[*types.Info]map[types.Object]ast.Expr{}
+	}
+	defs, ok := singleDefs[info]
+	if !ok {
+		defs = map[types.Object]ast.Expr{}
+		writes := map[types.Object]int{}
+		for _, pkg := range bndCtx.W.All {
+			if pkg.TypesInfo != info {
+				continue
+			}
+			for _, file := range pkg.Syntax {
+				ast.Inspect(file, func(n ast.Node) bool {
+					switch st := n.(type) {
+					case *ast.AssignStmt:
+						for i, l := range st.Lhs {
+							lid, isId := l.(*ast.Ident)
+							if !isId {
+								continue
+							}
+							obj := info.ObjectOf(lid)
+							if obj == nil {
+								continue
+							}
+							writes[obj]++
+							if st.Tok == token.DEFINE && len(st.Lhs) == len(st.Rhs) {
+								if ix, isIx := st.Rhs[i].(*ast.IndexExpr); isIx {
+									if tv := info.Types[ix.Index]; tv.Value != nil {
+										if _, rootIsId := ix.X.(*ast.Ident); rootIsId {
+											defs[obj] = ix
+										}
+									}
+								}
+							}
+						}
+					case *ast.IncDecStmt:
+						if lid, isId := st.X.(*ast.Ident); isId {
+							writes[info.ObjectOf(lid)] += 2
+						}
+					case *ast.RangeStmt:
+						for _, l := range []ast.Expr{st.Key, st.Value} {
+							if lid, isId := l.(*ast.Ident); isId {
+								writes[info.ObjectOf(lid)] += 2
+							}
+						}
+					case *ast.UnaryExpr:
+						if st.Op == token.AND {
+							if lid, isId := st.X.(*ast.Ident); isId {
+								writes[info.ObjectOf(lid)] += 2
+							}
+						}
+					}
+					return true
+				})
+			}
+		}
+		for obj := range defs {
+			if writes[obj] != 1 {
+				delete(defs, obj)
+			}
+		}
+		singleDefs[info] = defs
+	}
+	if obj := info.ObjectOf(id); obj != nil {
+		if d, ok := defs[obj]; ok {
+			return d
+		}
+	}
+	return e
 }
 
 // indexExprAt: the index or slice expression whose '[' is at pos, with its package's type info.
